@@ -110,7 +110,8 @@ def _node_io(nd: dict) -> tuple[set[str], set[str]]:
             if inner["kind"] != "graph":
                 prod |= set(inner.get("outs", [])) | set(inner.get("emit", []))
                 cons |= {inner.get("rename_inputs", {}).get(p["name"], p["name"]) for p in inner.get("params", [])} | set(inner.get("wait_for", []))
-        return cons - prod, prod
+        exposed = set(gen.program_outputs(nd["graph"])) | set(_emits_exposed(nd["graph"]))  # an inner select narrows what the node produces
+        return cons - prod, exposed
     cons = {nd.get("rename_inputs", {}).get(p["name"], p["name"]) for p in nd.get("params", [])} | set(nd.get("wait_for", []))
     return cons, set(nd.get("outs", [])) | set(nd.get("emit", []))
 
